@@ -176,6 +176,81 @@ theorem exit_state_is_source (fl : Flags) (s : St) (j : Nat) (h : (s.jobs j).pc 
   simp only [SchedFinal.codeTail, St.finish, St.put, upd, SchedFinal.releaseAll_job, Gen.exitStateSrc]
   src_auto
 
+/-- the recursion `St.registerDeps` is the `for dependency in job.dependencies:` loop whose body registers the dependency with
+    its origin and checks it (`Gen.forDeps` / `Gen.addDependent` are the fixed loop combinator and the `dependents.add`
+    of the generated file). -/
+theorem registerDeps_eq_forDeps (fl : Flags) (j : Nat) : ∀ (k d : Nat) (s : St),
+    St.registerDeps fl s j k d = Gen.forDeps (fun s d => (Gen.addDependent s j d).check fl j d) s k d := by
+  intro k
+  induction k with
+  | zero => intro d s; rfl
+  | succ k ih =>
+    intro d s
+    rw [St.registerDeps, Gen.forDeps, ih]
+    try rfl
+
+/-- **the dependency segment of `aio_submit` is the source's**: no dependency ⇒ `_readyEvent.set()` and READY; otherwise
+    `unsatisfied = len(dependencies)` *before* the loop, then for each dependency: registration with its origin, `check()`.
+    (`event`/`sleeping` are false because `aio_submit` has just created the event.)  The seeded change that counts inside
+    the loop fails here. -/
+theorem submit_deps_is_source (s : St) (j : Nat) (he : (s.jobs j).event = false) (hs : (s.jobs j).sleeping = false) :
+    (if (s.jobs j).deps.isEmpty then s.put j { (s.jobs j) with event := true, state := .ready }
+     else St.registerDeps repaired (s.put j { (s.jobs j) with unsat := (s.jobs j).deps.length }) j (s.jobs j).deps.length 0)
+    = Gen.submitDepsSrc s j := by
+  unfold Gen.submitDepsSrc
+  first
+    | rfl
+    | (rw [registerDeps_eq_forDeps]
+       cases hd : (s.jobs j).deps.isEmpty <;>
+         simp [eventSet, he, hs, St.put, upd, repaired])
+
+/-- **`St.startJob` is the first segment of `aio_submit`** with its dependency part regenerated from the source: WAITING and a
+    fresh event, the generated dependency segment, the done-marker test, the head of the waiting loop. -/
+theorem startJob_is_source (s : St) (j : Nat) :
+    St.startJob repaired s j =
+      (let s0 := s.put j { (s.jobs j) with state := .waiting, event := false, sleeping := false }
+       let s1 := Gen.submitDepsSrc s0 j
+       let s2 := if (s1.jobs j).marker then s1.put j { (s1.jobs j) with state := .done } else s1
+       s2.loopHead j) := by
+  have h := submit_deps_is_source (s.put j { (s.jobs j) with state := .waiting, event := false, sleeping := false }) j
+    (by simp [St.put, upd]) (by simp [St.put, upd])
+  simp only [← h]
+  unfold St.startJob
+  simp [St.put, upd]
+
+/-- **the end of an aborted start is the source's**: when the job-lock release of an aborted start is delivered, the model
+    does what `aio_submit` does with the `WAITING` returned by `aio_start` — `job.state = state`, and the re-check
+    `state == WAITING and job.unsatisfied == 0` ⇒ READY + `_readyEvent.set()` (repair of F5) — then goes back to the loop head. -/
+theorem after_abort_is_source (s : St) (j : Nat) (h : (s.jobs j).pc = .lockExitAbort) :
+    St.resume repaired s j =
+      (let s1 := s.releaseAll j (s.jobs j).held
+       let r := Gen.afterStartSrc (s1.jobs j) .waiting
+       (s1.put j r.1 (if r.2 then [.wake j] else [])).loopHead j) := by
+  unfold St.resume
+  simp only [h, repaired, Gen.afterStartSrc]
+  generalize (s.releaseAll j (s.jobs j).held) = s1
+  src_auto
+
+/-- for any other returned state the same source segment only assigns it (what the model does with DONE / ERROR at the end
+    of a launched job: no wake-up, no other field touched). -/
+theorem after_run_is_source (jb : Job) (st : JS) (h : st ≠ .waiting) :
+    Gen.afterStartSrc jb st = ({ jb with state := st }, false) := by
+  unfold Gen.afterStartSrc
+  cases st <;> simp_all
+
+/-- the flag `abortRechecks` is a consequence of the generated body (witness: an aborted start whose dependencies are all
+    satisfied must leave the job READY, not WAITING). -/
+theorem abortRechecks_from_source (fl : Flags)
+    (h : ∀ s j, (s.jobs j).pc = .lockExitAbort → St.resume fl s j =
+      (let s1 := s.releaseAll j (s.jobs j).held
+       let r := Gen.afterStartSrc (s1.jobs j) .waiting
+       (s1.put j r.1 (if r.2 then [.wake j] else [])).loopHead j)) : fl.abortRechecks = true := by
+  have := congrArg (fun s => (s.jobs 0).state)
+    (h { jobs := fun _ => { ident := 0, pc := .lockExitAbort, state := .ready, unsat := 0 } } 0 rfl)
+  cases hg : fl.abortRechecks
+  · simp [St.resume, hg, St.releaseAll, St.put, upd, St.loopHead, Gen.afterStartSrc, eventSet, JS.finished] at this
+  · rfl
+
 /-- the flag `readyGuarded` is a consequence of the generated body: any flag set for which the model's `depChanged` is the
     source's function has it (witness: a DONE job whose last dependency becomes OK must not become READY). -/
 theorem readyGuarded_from_source (fl : Flags)
